@@ -5,11 +5,11 @@ CONSTANTS
   Deadlines = {1,2}
   MaxNow = 2
   MaxSaves = 2
-  Backend = "memory"
+  Backend = "files"
   Net = FALSE
   IntMax = 1000
   GcBatch = 1
-  Bug = "none"
+  Bug = "LoadNoLock"
 CONSTRAINT Bounded
-INVARIANTS TypeOK LoadCorrect LiveKept HeldSound IndexConsistent
-PROPERTIES MemGcProgress FileGcComplete OnlyExpiredVanish
+INVARIANTS LoadCorrect
+
